@@ -753,6 +753,13 @@ def lambdify(args: dict, exprs: list, funcname: str, dependencies: tuple = None,
 
     # Provide lambda expression with builtins, and compatible implementation of range
     namespace = {'builtins': builtins, 'range': range}
+    # The elementary functions sympy prints by name (e.g. the cos and sinc in a symbolic exp(), or cos(t) coefficients
+    # supplied by the user) have to exist when the function is called with numbers.
+    import numpy
+    namespace.update({name: getattr(numpy, name)
+                      for name in ('sin', 'cos', 'tan', 'sinh', 'cosh', 'tanh', 'exp', 'log', 'sqrt', 'pi')})
+    namespace.update(asin=numpy.arcsin, acos=numpy.arccos, atan=numpy.arctan,
+                     sinc=lambda x: numpy.sinc(x / numpy.pi))
 
     funclocals = {}
     filename = f'<{funcname}>'
